@@ -124,7 +124,7 @@ Theorem C18_refuted_poly :
   exists (ti : cfg) (field : list nat -> poly1) (mi : list idx) (c : list nat),
     wf_cfg ti /\ all_fixed mi = Some c /\
     (forall c', deg_le (field c') (cdeg ti 0 0 c')) /\
-    ~ deg_le (field c) (estimate false ti (Indexed (Term 0 0 [2; 2]%nat) mi)).
+    ~ deg_le (field c) (estimate false ti false (Indexed (Term 0 0 [2; 2]%nat) mi)).
 Proof.
   exists cfg131, field131, [Fixed 1; Fixed 0], [1; 0]%nat. repeat split.
   - apply wf_list_cfg. reflexivity.
@@ -134,7 +134,7 @@ Proof.
     assert (P : deg_le pX (cdeg cfg131 0 0 c')) by (apply deg_le_mono with 1%nat; [apply deg_le_X | apply G]).
     unfold field131.
     destruct c' as [|[|[|a]] [|[|[|b]] [|? ?]]]; try exact P; exact x3_deg3.
-  - change (estimate false cfg131 (Indexed (Term 0 0 [2; 2]%nat) [Fixed 1; Fixed 0])) with 1%nat.
+  - change (estimate false cfg131 false (Indexed (Term 0 0 [2; 2]%nat) [Fixed 1; Fixed 0])) with 1%nat.
     exact x3_not_deg1.
 Qed.
 
